@@ -69,12 +69,24 @@ Theorem C17_both_sources : forall d, both_sources d -> exists e, load d = Error 
 Proof. exact reject_both_sources. Qed.
 Print Assumptions C17_both_sources.
 
-(* both receivers: the end that is taken as the source has an `in` interface and no connection feeds it *)
+(* a well-formed connection whose source end has an `in` interface that no connection feeds (e.g. private `in`
+   without a child) *)
 Theorem C17_both_receivers_unfed : forall d, receiver_unfed d -> exists e, load d = Error e.
 Proof. exact reject_receiver_unfed. Qed.
 Print Assumptions C17_both_receivers_unfed.
 
-(* parent / child interfaces that are neither (in, out) nor (out, in) *)
+(* FULL STRENGTH for "both sources, both receivers, no direction" (the code after the fix: commit 9e0bca6): the two
+   ends must show each other an (in, out) pair -- public/public for siblings, private of the parent / public of the
+   child otherwise; anything else, including components that are neither siblings nor parent and child, is refused *)
+Theorem C17_connection_interfaces : forall d,
+  (exists c1 v1 c2 v2 i1 i2, In (c1, v1, c2, v2) (all_pairs (d_conns d)) /\
+     vidx (st_vars d) c1 v1 = Some i1 /\ vidx (st_vars d) c2 v2 = Some i2 /\
+     valid_pair (st_vars d) (st_names d) (st_ps d) c1 c2 i1 i2 = false) ->
+  exists e, load d = Error e.
+Proof. exact reject_invalid_interfaces. Qed.
+Print Assumptions C17_connection_interfaces.
+
+(* the same, stated on the decision function *)
 Theorem C17_no_direction : forall d,
   (exists p, In p (all_pairs (d_conns d)) /\ dir_of (st_vars d) (st_names d) (st_ps d) p = Error ENoDirection) ->
   exists e, load d = Error e.
